@@ -14,10 +14,29 @@ TEXT = {
     ),
 }
 
+def _wb(pid, technique, level_text):
+    TEXT[pid] = dict(engine="wb", technique=technique, level_text=level_text, design_ref="§6 " + pid, level_note=WB_NOTE)
+
+
+_wb("C01", "property-based testing (rapid): record/replay round-trip of generated call programs over hostile texts, JSON and YAML documents; oracle = every replayed call passes silently and the directory is byte-identical",
+    "Generated-input search over call programs and values (terminator/escape lines, blank lines, edge newlines, header-like lines, invalid UTF-8, > 64 KiB lines, mixed entry kinds, pre-existing files); each case records in one simulated process and replays read-only in another. Sampled, not exhaustive.")
+_wb("C02", "property-based testing (rapid): metamorphic pairs (stored, received) with different formatted text, every non-updating mode, colours on/off; oracle = exactly one failure and an unchanged directory; known finding K1 excluded by construction and probed separately",
+    "Generated-input search over value pairs produced by byte/line/whitespace/UTF-8 edits and JSON value mutations through all five APIs. Sampled; the K1 class is reported as KNOWN-FINDING while it reproduces.")
+_wb("C03", "stateful model-based testing (rapid): generated histories of processes/executions/interleaved calls checked after every call against a slot model and an independent file parser",
+    "Generated histories (prefix-related names, > 9 calls, re-executions, interleaved live tests, failing calls consuming ordinals, per-call Update options, two files); after every call: predicted outcome == observed, other slots and order unchanged. Sampled.")
+_wb("C04", "property-based testing (rapid): record / update / read-only three-process scenario with generated old/new value pairs; oracles: per-call outcome, mtime-based no-write, only the addressed file written, reference-parser equality of all other entries, exact standalone bytes",
+    "Generated-input search over initial files and subsets of changed entries (shorter, longer, empty, terminator-like, header-like; first/middle/last; all five APIs). Sampled.")
+_wb("C07", "property-based testing (rapid): generated test programs + directory contents, exported Clean driven in-process with generated -count/-run/mode/sort; oracle = every slot addressed in the process survives byte-identically, is never listed, and replays",
+    "Generated-program search (1-5 tests, 0-12 calls, all five APIs, 1-3 configs, -count 1-3, run filters selecting all tests, stale neighbours, slots added in the run). Sampled.")
+_wb("C09", "property-based testing (rapid): generated directory contents and programs against a model of the stale set; oracle = summary lists a superset of the model's stale items and no addressed item, removal iff reported and allowed by mode, everything else byte/mtime identical",
+    "Generated-input search over stale entries (any position, ids live in another file), stale files, unrelated files, sub-directories, unaddressed directories, skip-protected tests, -count 1-3, all mode x sort combinations. Sampled.")
+_wb("C10", "property-based testing (rapid): generated well-formed files through Clean; oracles: exact multiset of surviving (id, body), independent natural-order comparator, no-write (mtime), idempotence, metamorphic permutation invariance",
+    "Generated-input search over files of 0-25 entries with natural-order traps, stale subsets, special body lines, two files per case, all modes x sort. Sampled; order only judged where the natural order is total.")
+
 NOT_APPLICABLE = {}
 
 ENGINES = [
-    dict(name="wb", path="/verif/wb", serves_properties=[], kind_free_text="white-box rapid properties compiled into package snaps via go test -overlay"),
+    dict(name="wb", path="/verif/wb", serves_properties=["C01","C02","C03","C04","C07","C09","C10","C12","C13","C14","C15","C16","C17","C18","C19","C20"], kind_free_text="white-box rapid properties compiled into package snaps via go test -overlay"),
 ]
 
 NOTES = ("All checks are driven by /verif/check (python3). Every check rebuilds its harness from /repo's working tree in a private scratch "
